@@ -5,6 +5,14 @@ CLAIMED = {
  'C01': dict(text='Bounded-free proof: every scalar op executed symbolically from its LLVM IR (inline asm interpreted) on arbitrary 64-bit words; z3 proves out ≡ spec (mod p) for all operands and all aliasing patterns; counterexamples are replayed on the native build.',
              note='Trusted: clang IR generation, gv interpreter + x86 mini-semantics (validated against native code on 2000+ vectors per run), z3. No bound needed (loop-free).',
              technique='symbolic execution of clang LLVM IR + z3 (words as wrapped integers)', ref='4/C01'),
+ 'C02': dict(text='Every AVX2 lane kernel executed from its LLVM vector IR on fully symbolic 4x64-bit registers; per-lane goal out_i ≡ scalar_op(a_i,b_i) (mod p) (exact 128-bit product for *_128/_72, canonical form where promised) proved by z3 under exactly the documented operand assumption; all lanes symbolic in one run so cross-lane leakage is a counterexample.',
+             note='Loop-free: no bound. Trusted: clang lowering of intrinsics to vector IR, interpreter (validated vs native on random/boundary vectors each run), z3.', technique='symbolic execution of clang LLVM vector IR + z3 (wrapped-integer encoding, limb variables)', ref='4/C02'),
+ 'C11': dict(text='Same as C02 for the 8-lane AVX512 kernels, compiled -mavx512f -D__AVX512__ (a configuration the shipped tests never build); mask registers are <8 x i1> selects in the IR.',
+             note='Loop-free: no bound. Counterexamples replay natively when the CPU has avx512f, else in the interpreter concrete mode.', technique='symbolic execution of clang LLVM vector IR + z3', ref='4/C11'),
+ 'C13': dict(text='spmv_avx_4x12(_a)(_8) proved over the lane contracts of mult_avx/add_avx/mult_avx_72/reduce_avx_96_64 (each re-proved bit-precisely in the same run, callee operand assumptions discharged by the solver at every call site); mmult_avx*(4x12)(_a)(_8) and dot_avx(_a) proved over the spmv contract; goal: every output word ≡ the integer matrix-vector product mod p in the documented layout, for all states and coefficient arrays.',
+             note='Assume/guarantee along the real call graph; fallback to bit-precise end-to-end execution if a callee assumption is not implied. No bound (constant trip counts).', technique='compositional symbolic execution of LLVM IR + z3 (linear arithmetic over shared product atoms, NIA for leaf contracts)', ref='4/C13'),
+ 'C14': dict(text='Same as C13 for the AVX512 kernels on two interleaved states; the precondition "second operand canonical" of add_avx512_b_c is a proof obligation at each call site, which is how defect D8 was found (fixed in /repo).',
+             note='As C13; build configuration -mavx512f -D__AVX512__.', technique='compositional symbolic execution of LLVM IR + z3', ref='4/C14'),
 }
 def main():
     props = [json.loads(l) for l in open(os.path.join(V, 'properties.jsonl'))]
